@@ -202,4 +202,45 @@ macro "bool_ite" "[" hs:Lean.Parser.Tactic.simpLemma,* "]" : tactic =>
         Bool.false_and, Bool.or_true, Bool.true_or, Bool.or_false, Bool.false_or, Bool.false_eq_true,
         if_true, if_false, ↓reduceIte])
 
+/-- `range(n)` as a list of naturals -/
+theorem pyRange_zero_list (n : Nat) : pyRange 0 (n : Int) 1 = (List.range n).map Int.ofNat := by
+  unfold pyRange
+  simp only [show (1:Int) > 0 by decide, if_true]
+  have : ((n : Int) - 0 + 1 - 1) / 1 = (n : Int) := by omega
+  rw [this, Int.toNat_natCast]
+  apply List.map_congr_left
+  intro k _
+  simp only [Int.ofNat_eq_natCast]
+  omega
+
+
+/-- the loop `for i in range(n): out[i] = f(i)` -/
+theorem foldl_set_each {β : Type} (f : Nat → β) (l : List Nat) (acc : Array β) (hnd : l.Nodup) :
+    (l.foldl (fun (out : Array β) (i : Nat) => out.setIfInBounds i (f i)) acc).size = acc.size
+    ∧ (∀ i ∈ l, i < acc.size → (l.foldl (fun (out : Array β) (i : Nat) => out.setIfInBounds i (f i)) acc)[i]? = some (f i))
+    ∧ (∀ j, j ∉ l → (l.foldl (fun (out : Array β) (i : Nat) => out.setIfInBounds i (f i)) acc)[j]? = acc[j]?) := by
+  induction l generalizing acc with
+  | nil => exact ⟨rfl, fun i hi => absurd hi List.not_mem_nil, fun j _ => rfl⟩
+  | cons k l ih =>
+    simp only [List.foldl_cons]
+    have hk : k ∉ l := (List.nodup_cons.mp hnd).1
+    obtain ⟨s, hin, hout⟩ := ih (acc.setIfInBounds k (f k)) (List.nodup_cons.mp hnd).2
+    simp only [Array.size_setIfInBounds] at s hin
+    refine ⟨s, ?_, ?_⟩
+    · intro i hi hlt
+      rcases List.mem_cons.mp hi with rfl | hi'
+      · rw [hout i hk]; simp [hlt]
+      · exact hin i hi' hlt
+    · intro j hj
+      have hjk : j ≠ k := fun e => hj (e ▸ List.mem_cons_self)
+      rw [hout j (fun e => hj (List.mem_cons_of_mem _ e))]
+      simp [Ne.symm hjk]
+
+theorem range_slots {β : Type} (f : Nat → β) (n : Nat) (d : β) :
+    ((List.range n).foldl (fun (out : Array β) (i : Nat) => out.setIfInBounds i (f i)) (Array.replicate n d)).size = n
+    ∧ ∀ i, i < n → ((List.range n).foldl (fun (out : Array β) (i : Nat) => out.setIfInBounds i (f i)) (Array.replicate n d))[i]? = some (f i) := by
+  obtain ⟨s, hin, _⟩ := foldl_set_each f (List.range n) (Array.replicate n d) List.nodup_range
+  rw [Array.size_replicate] at s hin
+  exact ⟨s, fun i hi => hin i (List.mem_range.mpr hi) hi⟩
+
 end Fteik
